@@ -452,6 +452,18 @@ fn op_group(prop: &str, subkeys: bool) -> BoxedStrategy<Vec<Op>> {
                 ]
             })
             .boxed()),
+        // on the brink: a grant with a time deadline that is not on a whole second, then a block in the deadline's
+        // own second, shortly before it (half of the time) or after it, and the subkey spends
+        (w.regrant, (any::<u16>(), (0u8..3).prop_map(Den::Ix), 1u128..500, 1u32..1_000_000_000, 1i64..6, 0u32..1_000_000_000, proptest::collection::vec(msg_spec(MsgWeights { send: 1, burn: 0, staking: 0, distr: 0, other: 0 }), 1..=2))
+            .prop_map(|(s, denom, g, n1, k, n2, msgs)| {
+                vec![
+                    Op::Advance { blocks: 0, secs: 0, nanos: n1 },
+                    Op::Increase { by: Who::Admin(0), spender: Sp::NonAdmin(s), denom, amt: Amt::Abs(g), exp: Some(ExpSpec::Time(k)) },
+                    Op::Advance { blocks: 1, secs: (k - 1) as u16, nanos: n2 },
+                    Op::Execute { by: Who::NonAdmin(s), msgs, funds: vec![] },
+                ]
+            })
+            .boxed()),
     ];
     Union::new_weighted(arms.into_iter().filter(|(w, _)| *w > 0).collect::<Vec<_>>()).boxed()
 }
